@@ -21,6 +21,14 @@ REWRITES = {
     "director/forward/forward.go": [
         ("net.Dial(", "VerifDial(", 1),
     ],
+    "server/options.go": [
+        ("ioutil.WriteFile(", "VerifWriteFile(", 1),
+    ],
+    "services/ssh/storage.go": [("s.Set(", "VerifSet(s, ", 1)],
+    "services/ftp/storage.go": [("s.Set(", "VerifSet(s, ", 2)],
+    "services/smtp/storage.go": [("s.Set(", "VerifSet(s, ", 2)],
+    "services/ldap/storage.go": [("s.Set(", "VerifSet(s, ", 2)],
+    "listener/agent/storage.go": [("s.Set(", "VerifSet(s, ", 1)],
     "listener/canary/canary_linux.go": [
         ("syscall.EpollCreate1(", "VerifSys.EpollCreate1(", 1),
         ("syscall.EpollCtl(", "VerifSys.EpollCtl(", 1),
@@ -42,6 +50,12 @@ SEAMS = [
     "director/forward/zz_verif_seam.go",
     "services/ipp/zz_verif_seam.go",
     "listener/canary/zz_verif_seam.go",
+    "server/zz_verif_seam.go",
+    "services/ssh/zz_verif_crash.go",
+    "services/ftp/zz_verif_crash.go",
+    "services/smtp/zz_verif_crash.go",
+    "services/ldap/zz_verif_crash.go",
+    "listener/agent/zz_verif_crash.go",
 ]
 
 class AnchorError(Exception):
